@@ -4,6 +4,7 @@ import FractopoModel.Spec.Classes
 import FractopoModel.Spec.SandersonNixon
 import FractopoModel.Spec.Azimuth
 import FractopoModel.Model.Subsampling
+import FractopoModel.Model.Contacts
 /-!
 # Model driver: runs the hand-written models and specs (never the regenerated
 definitions, so that it builds whatever the state of /repo) behind a line protocol.
@@ -141,6 +142,34 @@ def circle (a : Args) : Option String := do
   let inside := decide (r ≤ R) && decide (Pt.dist2 c c0 ≤ (R - r) * (R - r))
   some s!"inrange={showBool inRange} inside={showBool inside}"
 
+/-- all polygons of an area frame (rows flattened): clipping uses their union -/
+def allPolys (rows : List AreaRow) : List Polygon := rows.flatMap id
+
+/-- `arr t= k= areas= traces=`: the exact arrangement of a valid map, or the reason it is not valid -/
+def arr (a : Args) : Option String := do
+  let t ← (a.get? "t") >>= parseRat?
+  let k ← (a.get? "k") >>= parseRat?
+  let areas ← (a.get? "areas") >>= parseArea?
+  let traces ← (a.get? "traces") >>= parseLines?
+  match Contacts.contacts traces (allPolys areas) t k with
+  | .error e => some s!"invalid={enc e}"
+  | .ok r =>
+    let cs : Arr.CS Pt := r.events.map fun evs => evs.map fun e => ⟨e.p, e.role⟩
+    let wf := Arr.WellFormed cs
+    let nodes := Arr.nodes cs
+    let brs := Arr.branches cs
+    let nodeStr := ";".intercalate (nodes.map fun (p, c) => s!"{showPt p}:{c}")
+    let brStr := ";".intercalate (brs.map fun b => s!"{enc (Arr.branchClass b)}:{showPt b.1.node}:{showPt b.2.node}")
+    some s!"valid=1 wellformed={showBool wf} nodes={nodeStr} branches={brStr} pieces={showLines r.pieces} source={showNats r.source}"
+
+/-- `clip areas= traces=`: exact clip pieces per trace -/
+def clip (a : Args) : Option String := do
+  let areas ← (a.get? "areas") >>= parseArea?
+  let traces ← (a.get? "traces") >>= parseLines?
+  let polys := allPolys areas
+  let out := traces.map fun l => clipLine l polys
+  some s!"pieces={"#".intercalate (out.map showLines)}"
+
 end Cmd
 
 def dispatch (line : String) : String :=
@@ -162,6 +191,8 @@ def dispatch (line : String) : String :=
       | "group" => Cmd.group a
       | "aggregate" => Cmd.aggregate a
       | "circle" => Cmd.circle a
+      | "arr" => Cmd.arr a
+      | "clip" => Cmd.clip a
       | "bweight" => Cmd.bweight a
       | _ => some s!"error=unknown-command:{cmd}"
     r.getD "error=bad-arguments"
